@@ -1,0 +1,27 @@
+//go:build verif
+
+package vgirpc
+
+import "fmt"
+
+// Guarded export for the conformance harness of the state tokens (property
+// C13). It calls the real functions and nothing else; it is not reachable
+// from production builds.
+
+// VerifResolveCall presents callToken (nil = none) as identity `as` to the
+// call-token layer alone — resolveCall, i.e. the call-state cache and the call
+// token — for the call named by ownerCursor, which is opened as its owner.
+// Over HTTP the cursor layer runs first and shields this layer from any
+// identity but the owner; the binding of the call token and of the cache key
+// to the presenting identity is observable only here.
+func VerifResolveCall(h *HttpServer, ownerCursor []byte, owner *AuthContext, callToken []byte, as *AuthContext) (streamID string, err error) {
+	cur, err := h.openCursorToken(ownerCursor, owner)
+	if err != nil {
+		return "", fmt.Errorf("verif: the owner's cursor does not open: %w", err)
+	}
+	rc, err := h.resolveCall(cur, callToken, as)
+	if err != nil {
+		return "", err
+	}
+	return rc.StreamID, nil
+}
